@@ -1,6 +1,7 @@
 package c04
 
 import (
+	"os"
 	"fmt"
 	"regexp"
 	"sort"
@@ -199,6 +200,15 @@ func getHarvest(c *proto.Case, seed int64, deviators []proto.ID) *harvest {
 			}
 		}
 	}
+	if op := os.Getenv("C04_OP"); op != "" { // development aid (mutant demonstrations): only the faults of one operator
+		var keep []fault
+		for _, f := range h.faults {
+			if f.Op == op {
+				keep = append(keep, f)
+			}
+		}
+		h.faults = keep
+	}
 	harvests[k] = h
 	return h
 }
@@ -265,6 +275,11 @@ func opsFor(r cbor.Ref, ok bool) []string {
 		if len(n.Data) > 2 {
 			ops = append(ops, "flip-mid")
 		}
+		if len(n.Data) >= 16 {
+			// the adaptive ("believing") deviator: the value is altered in the message AND wherever the sender's own
+			// memory holds it, so everything the sender computes later is consistent with the altered value
+			ops = append(ops, "believe")
+		}
 		return ops
 	case n.Kind == cbor.Uint || n.Kind == cbor.Nint:
 		return []string{"int+1", "int:=0", "donor-other-sender"}
@@ -313,7 +328,7 @@ func applyOp(f fault, payload []byte, donorOther, donorSession []byte) (out []by
 		n.Data[len(n.Data)-1] ^= 1
 	case "flip-msb":
 		n.Data[0] ^= 0x80
-	case "flip-mid":
+	case "flip-mid", "believe":
 		n.Data[len(n.Data)/2] ^= 0x10
 	case "zero":
 		allZero := true
@@ -371,6 +386,18 @@ func applyOp(f fault, payload []byte, donorOther, donorSession []byte) (out []by
 		return nil, false, "no change"
 	}
 	return out, true, ""
+}
+
+// leafData returns the bytes of the byte-string leaf at path ("" when absent).
+func leafData(payload []byte, path string) []byte {
+	tr, err := cbor.Parse(payload)
+	if err != nil {
+		return nil
+	}
+	if ref := cbor.Find(tr, path); ref != nil && ref.Node.Kind == cbor.Bytes {
+		return append([]byte{}, ref.Node.Data...)
+	}
+	return nil
 }
 
 // normPath replaces array indices by [*] (allow-list patterns are index independent).
